@@ -44,6 +44,8 @@ FAULTS = [
     ('noinclude', 'include ""'), ('noinclude', 'include .'), ('noinclude', 'include_bytes .'),
     ('twin', 'bnez x8, TWIN_TARGET_91'), ('twin', 'beq x8, x9, TWIN_TARGET_91'), ('twin', 'c.beqz x8, %offset(TWIN_TARGET_91)'),
     ('noinclude', 'include missing_file_61.asm'), ('noinclude', 'include_bytes missing_blob_62.bin'), ('noinclude', 'include'),
+    # (round 9) the missing name has a directory part that does not exist, or that is a regular file
+    ('noinclude', 'include no_such_dir_63/defs.asm'), ('noinclude', 'include_bytes no_such_dir_64/blob.bin'), ('noinclude', 'include main.asm/extra.asm'),
     ('expansion', 'bgt x5, x6, {far}'), ('expansion', 'bleu x5, x6, {far}'), ('expansion', 'beqz x5, {far}'), ('expansion', 'li x99, 0x12345678'),
     ('expansion', 'sgtz x5, x77'), ('expansion', 'not q1, x5'),
     # found by the byte-level fuzzer (section 5 of DESIGN.md, fixes 15-17): a zero alignment, pack formats struct does not know,
